@@ -397,6 +397,11 @@ DIRECTED = [
      {'op': 'prune', 'project': 'pa', 'release': None, 'generation': 3},
      {'op': 'train', 'project': 'pa', 'release': '1.0', 'generation': 2, 'states': [{'seed': 17, 'len': 7}, {'seed': 18, 'len': 7}]},
      {'op': 'read', 'project': 'pa', 'release': None, 'generation': None}],
+    # several trainings of one explicitly named release in a row: with kept handles every other one goes through the
+    # generation object of an earlier training while the ones in between are committed through fresh objects
+    [{'op': 'publish', 'project': 'pb', 'version': '1.0', 'kind': 'zipfile', 'payload': 11, 'extra': 0, 'big': False}] + [
+        {'op': 'train', 'project': 'pb', 'release': '1.0', 'generation': None, 'states': [{'seed': 20 + i, 'len': 5 + i}]} for i in range(6)
+    ] + [{'op': 'read', 'project': 'pb', 'release': '1.0', 'generation': None}],
 ]
 
 
@@ -448,8 +453,9 @@ def build_package(srcdir, op):
 NODES = [uuid.UUID(int=0x1000 + i) for i in range(8)]
 
 
-def perform(directory, op, source=None):
-    """Run one operation exactly the way the platform does; returns what forml reported."""
+def perform(directory, op, source=None, handles=None):
+    """Run one operation exactly the way the platform does; returns what forml reported.  ``handles``: generation objects
+    kept from earlier operations of the history (a long-lived runner / instance): reused, not re-resolved."""
     from forml import project as prj
     from forml.io import asset
 
@@ -462,7 +468,12 @@ def perform(directory, op, source=None):
         except Exception as err:  # pylint: disable=broad-except
             return {'accepted': False, 'error': f'{type(err).__name__}: {err}'[:200], 'type': type(err).__name__}
         return {'accepted': True}
-    generation = directory.get(op['project']).get(op['release']).get(op['generation'])
+    if handles is not None and (op['project'], op['release'], op['generation']) in handles:
+        generation = handles[op['project'], op['release'], op['generation']]
+    else:
+        generation = directory.get(op['project']).get(op['release']).get(op['generation'])
+        if handles is not None:
+            handles[op['project'], op['release'], op['generation']] = generation
     if op['op'] == 'train':
         blobs = [blob(s) for s in op['states']]
         nodes = NODES[:len(blobs)]
@@ -576,13 +587,15 @@ class History:
         self.crash_ops = crash_ops if only_crash is None else {only_crash['op_index']: None}
         self.serial = 0
         self.persistent = None
+        self.handles = {}
+        self.writer = 'fresh'
 
     def key(self, key, op):
         """Mechanism key; failures of operations that refer to a release by an alias spelling are a mechanism of their own."""
         return ('release-alias-spelling-' + key) if is_alias(op, self.before_model) else key
 
     def witness(self, upto, **extra):
-        return dict({'history': self.ops[:upto + 1], 'registry': 'posix'}, **extra)
+        return dict({'history': self.ops[:upto + 1], 'registry': 'posix', 'writer': self.writer}, **extra)
 
     def fresh_copy(self, label):
         self.serial += 1
@@ -606,6 +619,7 @@ class History:
         ``self.crash_ops``: indices of the operations whose crash points this shard enumerates (None = all)."""
         from vlib import c05_view
 
+        self.writer = writer
         last = max(self.crash_ops, default=-1) if self.crash_ops is not None and not self.check else len(self.ops)
         for index, op in enumerate(self.ops):
             if index > last:
@@ -628,7 +642,16 @@ class History:
                 self.settle(index, op, crashed, before_view, before_tree)
                 return
             try:
-                result = prune(self.root, self.model, op) if op['op'] == 'prune' else perform(self.directory(self.root, writer), op, source)
+                # 'kept': every other operation goes through generation objects kept from earlier operations of the history
+                # (a long-lived handle whose release has meanwhile been written through other objects), the rest is fresh
+                # (only trainings of an explicitly named release: a handle of "the latest release" legitimately stays with the
+                # release it resolved, and a handle of a generation an operator pruned legitimately fails)
+                kept = self.handles if writer.startswith('kept') and index % 2 == int(writer[-1]) and op['op'] == 'train' and op['release'] is not None else None
+                if writer.startswith('kept') and op['op'] == 'prune':
+                    self.handles = {k: v for k, v in self.handles.items() if k[:2] != (op['project'], op['release'])}
+                if kept is not None and (op['project'], op['release'], op['generation']) in kept:
+                    self.ctx.count('kept_handle_operations')
+                result = prune(self.root, self.model, op) if op['op'] == 'prune' else perform(self.directory(self.root, writer), op, source, kept)
             except Exception as err:  # pylint: disable=broad-except
                 result = {'raised': f'{type(err).__name__}: {err}'[:300]}
             if op['op'] == 'prune':  # what the operator removed is exempt from the append-only comparison of this step
@@ -1051,6 +1074,12 @@ def run(ctx):
         history.run(writer='persistent' if index % 2 else 'fresh')
         shutil.rmtree(history.scratch, ignore_errors=True)
         if owner:
+            # the same history once more through kept generation objects (no crash points: the history part only)
+            for parity in (0, 1):
+                again = History(ctx, ops, f'{label}k{parity}', scratch, process=False, crash=False, check=True)
+                again.run(writer=f'kept{parity}')
+                shutil.rmtree(again.scratch, ignore_errors=True)
+                ctx.count('histories_kept_handles')
             run_volatile(ctx, ops, label, scratch)
             ctx.count('histories_run')
             ctx.count('histories_crash_enumerated', int(crash))
@@ -1069,5 +1098,5 @@ def replay(ctx, witness):
         History(ctx, ops, 'replay', scratch, crash=True,
                 only_crash={'op_index': witness['op_index'], 'crash_point': witness['crash_point']}).run()
     else:
-        History(ctx, ops, 'replay', scratch, crash=False).run()
+        History(ctx, ops, 'replay', scratch, crash=False).run(writer=witness.get('writer', 'fresh'))
     shutil.rmtree(scratch, ignore_errors=True)
